@@ -12,6 +12,9 @@ open ZnVerif.Properties.C05
 #print axioms display_total
 #print axioms quoted_line_is_physical
 #print axioms caret_under_offender
+#print axioms leftover_error_at_first_leftover_token
+#print axioms overindented_line_after_fix
+#print axioms overindented_line_before_fix
 
 -- input-variable texts (C05VarInput)
 #print axioms ZnVerif.Properties.C05VarInput.varinput_compiles_cleanly
